@@ -6,7 +6,9 @@ set -u
 P="$(readlink -f "$1")"; shift
 cd /repo || exit 2
 if [ -n "$(git status --porcelain --untracked-files=no)" ]; then echo "try_patch: /repo is not clean" >&2; exit 2; fi
-restore() { git -C /repo checkout -q -- . ; git -C /repo clean -fdq -- contracts packages 2>/dev/null; }
+rm -rf /tmp/try_patch_evidence && cp -a /verif/evidence /tmp/try_patch_evidence
+# /repo is restored and the evidence files of the unchanged tree are put back whatever happens
+restore() { git -C /repo checkout -q -- . ; git -C /repo clean -fdq -- contracts packages 2>/dev/null; rm -rf /verif/evidence && mv /tmp/try_patch_evidence /verif/evidence; }
 trap restore EXIT
 if ! git apply "$P"; then echo "try_patch: patch does not apply" >&2; exit 2; fi
 TIER="${TIER:-quick}"
